@@ -184,7 +184,8 @@ int main(int argc, char **argv)
         if (!next_session()) break;
         k = next_file();
         { FILE *f = k >= 0 ? fopen(argv[k], "rb") : fopen("/dev/null", "rb"); if (!f) return 2;
-          if (g_mode == 'r') yyrestart(f); else yyin = f; }
+          if (g_mode == 'd') { yylex_destroy(); yyin = f; }      /* a destroyed scanner is used again as if fresh */
+          else if (g_mode == 'r') yyrestart(f); else yyin = f; }
     }
     fflush(stdout);
     yylex_destroy();
@@ -423,6 +424,7 @@ def eval_stream_case(flex, workdir, case):
         pass
     queries = []
     runs = []
+    run_chunks = []
     allruns = case.get('runs') or [{'sessions': [srcs], 'mode': 'a'} for srcs in case['sources']]
     for si, rn in enumerate(allruns):
         args = ["-" + rn.get('mode', 'a')]
@@ -444,10 +446,20 @@ def eval_stream_case(flex, workdir, case):
                 evs.append(('F', code))
         runs.append((rc, evs, errs[:200]))
         total = sum(len(w) for sess in rn['sessions'] for w in sess)
-        queries.append("(sessions %d (%s))" % (2 * total + 50, " ".join(
-            "(" + " ".join("(" + " ".join(str(b) for b in w) + ")" for w in sess) + ")" for sess in rn['sessions'])))
+        if rn.get('mode') == 'd':
+            # yylex_destroy() between the sessions: every session is a run of a fresh scanner
+            idx = []
+            for sess in rn['sessions']:
+                idx.append(len(queries))
+                queries.append("(sessions %d (%s))" % (2 * total + 50, "(" + " ".join("(" + " ".join(str(b) for b in w) + ")" for w in sess) + ")"))
+            run_chunks.append(idx)
+        else:
+            run_chunks.append([len(queries)])
+            queries.append("(sessions %d (%s))" % (2 * total + 50, " ".join(
+                "(" + " ".join("(" + " ".join(str(b) for b in w) + ")" for w in sess) + ")" for sess in rn['sessions'])))
     # C08_bytes_conserved on the same runs: do all steps keep yytext defined (hypothesis), is consumed ++ unread the input (conclusion)
     nconserve = 0
+    nsess_queries = len(queries)
     for rn in allruns:
         if len(rn['sessions']) == 1:
             total = sum(len(w) for w in rn['sessions'][0])
@@ -463,7 +475,7 @@ def eval_stream_case(flex, workdir, case):
         res['problems'].append(('driver-error', "rc=%s %s" % (rc, err[:300])))
         return res
     chunks = out.split("END\n")
-    cons = [c.strip() for c in chunks[len(allruns):len(allruns) + nconserve]]
+    cons = [c.strip() for c in chunks[nsess_queries:nsess_queries + nconserve]]
     res['conserve_hypothesis_holds'] = sum(1 for c in cons if "ok=true" in c)
     res['conserve_runs'] = len(cons)
     for c in cons:
@@ -471,7 +483,12 @@ def eval_stream_case(flex, workdir, case):
             res['problems'].append(('driver-error', "the extracted machine contradicts C08_checked_runs_are_instances: " + c))
     for si, (rn, (rrc, revs, rerr)) in enumerate(zip(allruns, runs)):
         sources = [w for sess in rn['sessions'] for w in sess]
-        mevs = parse_events(chunks[si].encode(), bol_obs) if si < len(chunks) else []
+        mevs = []
+        for ci in run_chunks[si]:
+            part = parse_events(chunks[ci].encode(), bol_obs) if ci < len(chunks) else []
+            mevs += part
+            if any(e[0] == 'F' for e in part):
+                break
         # a fatal error ends the process: nothing after it (later sessions included) can be observed
         for fi, e in enumerate(mevs):
             if e[0] == 'F':
